@@ -323,3 +323,163 @@ func rulePrefixOp(w *World, r *Report, pie, cmp, reduce *ssa.Function) {
 		r.Unresolved(rule, "no reduction call for an arriving operator name found in parseInfixExpression")
 	}
 }
+
+// ---- R-INFIXWHOLE -------------------------------------------------------------
+
+// ruleInfixWhole: the infix parser consumes the whole token list and hands every popped operand to the node it
+// builds — (a) parseInfixExpression returns a tree (nil error) only over the `!p.hasNext()` edge of its main
+// loop; (b) the operand slice passed to buildParentNode has cnt elements and is filled completely before the call:
+// by one copy of the top cnt entries of the output stack, or by a loop from cnt-1 down to 0 that stores a popped
+// entry on every iteration and is left only below 0.
+func ruleInfixWhole(w *World, r *Report) {
+	const rule = "R-INFIXWHOLE"
+	r.Rule(rule, "the infix parser's main loop ends only when no token is left, and every operator node receives all the operands popped for it", 2)
+	fn := w.MustFn(r, rule, "(*parser).parseInfixExpression")
+	if fn == nil {
+		return
+	}
+	name := w.Name(fn)
+	// (a)
+	var hdr *ssa.BasicBlock
+	for _, b := range fn.Blocks {
+		if len(b.Succs) != 2 || !reachable(b.Succs[0], b) {
+			continue
+		}
+		iff, ok := b.Instrs[len(b.Instrs)-1].(*ssa.If)
+		if !ok {
+			continue
+		}
+		if c, callee := staticCallee(iff.Cond); c != nil && callee != nil && callee.Name() == "hasNext" {
+			if hdr == nil || b.Dominates(hdr) {
+				hdr = b
+			}
+		}
+	}
+	if hdr == nil {
+		r.Unresolved(rule, "main loop `for p.hasNext()` of the infix parser not found")
+	} else {
+		whole := true
+		n := 0
+		for _, ret := range allReturns(fn) {
+			if len(ret.Results) != 2 || !isNilConst(ret.Results[1]) || !hdr.Dominates(ret.Block()) {
+				continue
+			}
+			n++
+			if !edgeDominates(hdr, 1, ret.Block()) {
+				whole = false
+			}
+		}
+		r.Check(whole && n > 0, rule, w.InstrPos(hdr.Instrs[len(hdr.Instrs)-1]), name, "success returns of the infix parser", "a tree is returned only when p.hasNext() is false: every token was consumed", "the main loop can be left while tokens remain: the rest of the expression is silently ignored")
+	}
+	// (b)
+	bp := w.Fn("(*parser).buildParentNode")
+	found := false
+	for _, an := range append([]*ssa.Function{fn}, allAnon(fn)...) {
+		EachInstr(an, func(in ssa.Instruction) {
+			call, ok := in.(*ssa.Call)
+			if !ok || bp == nil || call.Call.StaticCallee() != bp {
+				return
+			}
+			arg := call.Call.Args[len(call.Call.Args)-1]
+			ms, isMake := arg.(*ssa.MakeSlice)
+			if !isMake {
+				return
+			}
+			found = true
+			pos := w.InstrPos(call)
+			complete, why := false, "the operand slice is not filled from the output stack"
+			for _, ref := range referrers(ms) {
+				switch x := ref.(type) {
+				case *ssa.Call:
+					if calleeFullName(&x.Call) == "builtin.copy" && x.Call.Args[0] == ssa.Value(ms) && (x.Block() == call.Block() || x.Block().Dominates(call.Block())) {
+						complete = true // R-REDUCEGATE and the C06 ledger judge the source range
+					}
+				case *ssa.IndexAddr:
+					i, okP := x.Index.(*ssa.Phi)
+					if !okP {
+						continue
+					}
+					h := i.Block()
+					startOK, stepOK := false, false
+					for k, e := range i.Edges {
+						if !h.Dominates(h.Preds[k]) {
+							if bo, okb := e.(*ssa.BinOp); okb && bo.Op == token.SUB && bo.X == ms.Len {
+								if c, okc := constInt(bo.Y); okc && c == 1 {
+									startOK = true
+								}
+							}
+							continue
+						}
+						if bo, okb := e.(*ssa.BinOp); okb && bo.Op == token.SUB && bo.X == ssa.Value(i) {
+							if c, okc := constInt(bo.Y); okc && c == 1 {
+								stepOK = true
+								continue
+							}
+						}
+						stepOK = false
+					}
+					iff, okIf := h.Instrs[len(h.Instrs)-1].(*ssa.If)
+					exitEdge := -1
+					if okIf {
+						if cmp, okc := iff.Cond.(*ssa.BinOp); okc && cmp.X == ssa.Value(i) {
+							if c, okz := constInt(cmp.Y); okz && c == 0 {
+								switch cmp.Op {
+								case token.LSS:
+									exitEdge = 0
+								case token.GEQ:
+									exitEdge = 1
+								}
+							}
+						}
+					}
+					if !startOK || !stepOK || exitEdge < 0 {
+						why = "the fill loop does not run from cnt-1 down to 0"
+						continue
+					}
+					for _, ref2 := range referrers(x) {
+						st, okS := ref2.(*ssa.Store)
+						if !okS || st.Addr != ssa.Value(x) {
+							continue
+						}
+						every := true
+						for k := range i.Edges {
+							if p := h.Preds[k]; h.Dominates(p) && !st.Block().Dominates(p) {
+								every = false
+							}
+						}
+						if !every {
+							why = "an iteration can go by without storing its operand"
+						} else if !edgeDominates(h, exitEdge, call.Block()) {
+							why = "the node can be built before all its operands were popped (the fill loop can be left early): operands are nil or stay on the stack"
+						} else {
+							complete = true
+						}
+					}
+				}
+			}
+			r.Check(complete, rule, pos, w.Name(an), "operands handed to buildParentNode", "all cnt popped entries, filled before the call", why)
+		})
+	}
+	if !found {
+		r.Unresolved(rule, "no buildParentNode call with a freshly made operand slice in the infix parser")
+	}
+}
+
+// allAnon lists the closures of fn, nested ones included.
+func allAnon(fn *ssa.Function) []*ssa.Function {
+	var out []*ssa.Function
+	for _, a := range fn.AnonFuncs {
+		out = append(out, a)
+		out = append(out, allAnon(a)...)
+	}
+	return out
+}
+
+var infixWholeWitnesses = []Witness{
+	{Name: "infix-main-loop-stops-on-deep-stack", Rule: "R-INFIXWHOLE", Edits: []Edit{
+		{File: "parser.go", Old: "	for p.hasNext() {\n		ast, err := p.buildLeafNode()\n		if err != nil {\n			return nil, err\n		}", New: "	for p.hasNext() {\n		if len(operatorStack) > 64 {\n			break\n		}\n		ast, err := p.buildLeafNode()\n		if err != nil {\n			return nil, err\n		}"}}},
+	{Name: "infix-operand-fill-leaves-after-eight", Rule: "R-INFIXWHOLE", Edits: []Edit{
+		{File: "parser.go", Old: "				for i := cnt - 1; i >= 0; i-- {\n					children[i] = pop()\n				}", New: "				for i := cnt - 1; i >= 0; i-- {\n					if cnt-i > 8 {\n						break\n					}\n					children[i] = pop()\n				}"}}},
+	{Name: "infix-operand-fill-stops-above-zero", Rule: "R-INFIXWHOLE", Edits: []Edit{
+		{File: "parser.go", Old: "				for i := cnt - 1; i >= 0; i-- {\n					children[i] = pop()\n				}", New: "				for i := cnt - 1; i > 0; i-- {\n					children[i] = pop()\n				}"}}},
+}
